@@ -31,7 +31,9 @@ Record fn_ctx := {
   num_constants : Z;
   num_locals : Z;
   num_modules : Z;
-  cfun_constants : list Z     (* indexes of constants that are compiled functions *)
+  (* constants that are compiled functions: (index, number of free-variable slots the function's
+     own instructions read or write) *)
+  cfun_constants : list (Z * Z)
 }.
 
 Definition in_bounds (x hi : Z) : bool := (0 <=? x) && (x <? hi).
@@ -49,7 +51,9 @@ Definition wf_instr (ctx : fn_ctx) (bounds : list Z) (d : Z * Z * list Z) : bool
   else if (op =? c_OpConstant) || (op =? c_OpGetGlobal) || (op =? c_OpSetGlobal) then
     in_bounds (arg 0%nat) (num_constants ctx)
   else if op =? c_OpClosure then
-    in_bounds (arg 0%nat) (num_constants ctx) && existsb (Z.eqb (arg 0%nat)) (cfun_constants ctx)
+    (* the closure binds at least as many free variables as the function uses *)
+    in_bounds (arg 0%nat) (num_constants ctx) &&
+    existsb (fun c => Z.eqb (arg 0%nat) (fst c) && (snd c <=? arg 1%nat)) (cfun_constants ctx)
   else if op =? c_OpLoadModule then
     in_bounds (arg 0%nat) (num_constants ctx) && in_bounds (arg 1%nat) (num_modules ctx)
   else if op =? c_OpStoreModule then
